@@ -18,7 +18,14 @@ impl Rng {
     fn below(&mut self, n: u64) -> u64 { (self.next() >> 11) % n }
 }
 
-fn fail(failing: &mut usize, msg: String) {
+
+// every check of this driver is tagged with the properties whose statement it is taken from; when the driver is consulted for ONE
+// property (VERIF_PROPERTY, set by ./check) only the failures tagged with it count
+fn counts(tags: &str) -> bool {
+    match std::env::var("VERIF_PROPERTY") { Ok(p) if !p.is_empty() => tags.split(',').any(|t| t == p), _ => true }
+}
+fn fail(tags: &str, failing: &mut usize, msg: String) {
+    if !counts(tags) { return; }
     *failing += 1;
     if *failing <= 3 { println!("FAILING-INPUT: {}", msg); }
 }
@@ -74,8 +81,10 @@ fn mesh(mode: Mode, tap: bool, n: usize, steps: usize, seed: u64, failing: &mut 
         let mut pings: Vec<(SocketAddr, SocketAddr, Vec<u8>)> = vec![];
         for i in 0..n { for j in i + 1..n { $sim.connect(addrs[i], addrs[j]); if let Some(m) = $sim.messages.back() { pings.push(m.clone()); } } }
         $sim.simulate_all_messages();
-        for i in 0..n { for j in 0..n { if i != j && !$sim.is_connected(addrs[i], addrs[j]) { fail(failing, format!("mode {} on {} ({:?}), {} nodes: nodes do not connect", mode, if tap { "tap" } else { "tun" }, kind, n)); return; } } }
+        for i in 0..n { for j in 0..n { if i != j && !$sim.is_connected(addrs[i], addrs[j]) { fail("C10,C13,C11,C02", failing, format!("mode {} on {} ({:?}), {} nodes: nodes do not connect", mode, if tap { "tap" } else { "tun" }, kind, n)); return; } } }
         for a in &addrs { while $sim.pop_payload(*a).is_some() {} }
+        // who is selected: C10 always; the learned next hop and the mode table are C13's, the claimed next hop is C11's
+        let sel_tags = match kind { Kind::Switch => "C10,C13", Kind::Hub => "C10,C13", Kind::Router => "C10,C11,C13" };
         let what = format!("mode `{}` on a {} device (documented behaviour: {:?}), mesh of {} nodes", mode, if tap { "tap" } else { "tun" }, kind, n);
         // reference model (switch): learned[i][source node] = peer it was last heard from
         let mut learned: Vec<Vec<Option<usize>>> = vec![vec![None; n]; n];
@@ -97,11 +106,11 @@ fn mesh(mode: Mode, tap: bool, n: usize, steps: usize, seed: u64, failing: &mut 
             let mut to: Vec<usize> = sent.iter().filter_map(|m| addrs.iter().position(|a| *a == m.1)).collect();
             to.sort();
             if sent.iter().any(|m| m.0 != addrs[from]) || to != selected || to.len() != sent.len() {
-                fail(failing, format!("{}: selected peers {:?}, but datagrams go to nodes {:?} ({} datagram(s))", desc, selected, to, sent.len()));
+                fail(sel_tags, failing, format!("{}: selected peers {:?}, but datagrams go to nodes {:?} ({} datagram(s))", desc, selected, to, sent.len()));
                 return;
             }
             for m in &sent {
-                if contains(&m.2, &frame[frame.len().min(20)..frame.len().min(20) + 16]) { fail(failing, format!("{}: the cleartext of the frame appears on the wire ({}-byte datagram) although plain mode is off", desc, m.2.len())); return; }
+                if contains(&m.2, &frame[frame.len().min(20)..frame.len().min(20) + 16]) { fail("C02", failing, format!("{}: the cleartext of the frame appears on the wire ({}-byte datagram) although plain mode is off", desc, m.2.len())); return; }
                 if captured.len() < 64 { captured.push(m.clone()); }
             }
             // deliver one by one: exactly one interface write, byte-identical, and NO datagram in consequence
@@ -110,7 +119,7 @@ fn mesh(mode: Mode, tap: bool, n: usize, steps: usize, seed: u64, failing: &mut 
                 let before = $sim.messages.len();
                 $sim.simulate_next_message();
                 if $sim.messages.len() != before - 1 {
-                    fail(failing, format!("{}: node {} emits {} datagram(s) on RECEIVING the payload (relaying / amplification)", desc, addrs.iter().position(|a| *a == dst).unwrap(), $sim.messages.len() + 1 - before));
+                    fail("C10", failing, format!("{}: node {} emits {} datagram(s) on RECEIVING the payload (relaying / amplification)", desc, addrs.iter().position(|a| *a == dst).unwrap(), $sim.messages.len() + 1 - before));
                     return;
                 }
             }
@@ -118,8 +127,8 @@ fn mesh(mode: Mode, tap: bool, n: usize, steps: usize, seed: u64, failing: &mut 
                 let mut got = vec![];
                 while let Some(p) = $sim.pop_payload(addrs[j]) { got.push(p); }
                 let want = if selected.contains(&j) { 1 } else { 0 };
-                if got.len() != want { fail(failing, format!("{}: node {} writes {} frame(s) to its interface, expected {}", desc, j, got.len(), want)); return; }
-                if want == 1 && got[0] != frame { fail(failing, format!("{}: node {} writes a frame that differs from what node {} read ({} vs {} bytes)", desc, j, from, got[0].len(), frame.len())); return; }
+                if got.len() != want { fail(sel_tags, failing, format!("{}: node {} writes {} frame(s) to its interface, expected {}", desc, j, got.len(), want)); return; }
+                if want == 1 && got[0] != frame { fail("C02,C10", failing, format!("{}: node {} writes a frame that differs from what node {} read ({} vs {} bytes)", desc, j, from, got[0].len(), frame.len())); return; }
                 if want == 1 && kind == Kind::Switch { learned[j][from] = Some(from); }
             }
             if step % 10 == 9 && !captured.is_empty() {
@@ -127,12 +136,12 @@ fn mesh(mode: Mode, tap: bool, n: usize, steps: usize, seed: u64, failing: &mut 
                 let stranger: SocketAddr = "[::]:999".parse().unwrap();
                 let third = addrs.iter().copied().find(|a| *a != csrc && *a != cdst);
                 let rnd: Vec<u8> = (0..r.below(200)).map(|_| (r.next() >> 24) as u8).collect();
-                let mut cases: Vec<(&str, SocketAddr, SocketAddr, Vec<u8>)> = vec![
-                    ("a captured sealed datagram replayed from an unknown address", stranger, cdst, cdata.clone()),
-                    ("a sealed datagram reflected back to its own sender", cdst, csrc, cdata.clone()),
-                    ("random bytes from an unknown address", stranger, cdst, rnd),
+                let mut cases: Vec<(&str, &str, SocketAddr, SocketAddr, Vec<u8>)> = vec![
+                    ("a captured sealed datagram replayed from an unknown address", "C10,C02", stranger, cdst, cdata.clone()),
+                    ("a sealed datagram reflected back to its own sender", "C02,C04", cdst, csrc, cdata.clone()),
+                    ("random bytes from an unknown address", "C10", stranger, cdst, rnd),
                 ];
-                if let Some(t) = third { cases.push(("a sealed datagram of one connection injected into another", csrc, t, cdata.clone())); }
+                if let Some(t) = third { cases.push(("a sealed datagram of one connection injected into another", "C02", csrc, t, cdata.clone())); }
                 // cleartext behind the data type byte: (a) from an address this node is DIALLING (handshake pending, no answer yet),
                 // (b) from an established peer's address right after an observer replayed that peer's recorded ping from it
                 let mut clear = vec![0u8];
@@ -140,17 +149,17 @@ fn mesh(mode: Mode, tap: bool, n: usize, steps: usize, seed: u64, failing: &mut 
                 let dead: SocketAddr = "[::]:777".parse().unwrap();
                 let _ = $sim.nodes.get_mut(&addrs[0]).unwrap().connect(dead);
                 while $sim.nodes.get_mut(&addrs[0]).unwrap().socket().pop_outbound().is_some() {}
-                cases.push(("a CLEARTEXT data datagram from an address whose handshake is still pending", dead, addrs[0], clear.clone()));
+                cases.push(("a CLEARTEXT data datagram from an address whose handshake is still pending", "C02,C01,C10", dead, addrs[0], clear.clone()));
                 if let Some(p) = pings.iter().find(|p| p.1 == cdst || p.0 == csrc) {
-                    cases.push(("(replay of a recorded ping of an established peer from its address)", p.0, p.1, p.2.clone()));
-                    cases.push(("a CLEARTEXT data datagram from an established peer's address after its recorded ping was replayed", p.0, p.1, clear.clone()));
+                    cases.push(("(replay of a recorded ping of an established peer from its address)", "C02,C10", p.0, p.1, p.2.clone()));
+                    cases.push(("a CLEARTEXT data datagram from an established peer's address after its recorded ping was replayed", "C02,C01", p.0, p.1, clear.clone()));
                 }
-                for (name, s, d, data) in cases {
+                for (name, tags, s, d, data) in cases {
                     $sim.messages.clear();
                     $sim.messages.push_back((s, d, data));
                     $sim.simulate_all_messages();
-                    for j in 0..n { if let Some(p) = $sim.pop_payload(addrs[j]) { fail(failing, format!("{}, step {}: {} makes node {} write {} bytes to its interface", what, step, name, j, p.len())); return; } }
-                    if $sim.is_connected(d, stranger) { fail(failing, format!("{}, step {}: {} creates a peer", what, step, name)); return; }
+                    for j in 0..n { if let Some(p) = $sim.pop_payload(addrs[j]) { fail(tags, failing, format!("{}, step {}: {} makes node {} write {} bytes to its interface", what, step, name, j, p.len())); return; } }
+                    if $sim.is_connected(d, stranger) { fail("C01,C10", failing, format!("{}, step {}: {} creates a peer", what, step, name)); return; }
                 }
             }
         }
